@@ -7,6 +7,7 @@ tables) with unrelated arguments, and compares every object's recorded stream
 with the GOLDEN stream of the same config produced in a fresh interpreter
 (vlib/golden.py: a pristine parent process fork()s one child per config).
 """
+import gc
 import json
 import os
 import subprocess
@@ -247,6 +248,11 @@ class World:
             return
         self.objs[i][2] = True
         self.finished.append((cfg, list(r.stream), r.done))
+        # the driver drops a schedule it is done with (finished or abandoned half-way): the object is
+        # freed, its id() and memory can be reused by the next schedule, weak references to it die
+        self.objs[i][1] = None
+        del r
+        gc.collect()
 
     def finish_all(self):
         for i in list(self.live()):
@@ -501,6 +507,15 @@ def _shard(job):
             # Hypothesis may wrap a violation it could not reproduce identically (Flaky): a
             # recorded violation is still a violation; its recorded history is replayed below.
             if _LAST_FAIL[0] is None:
+                import hypothesis.errors as HE
+                import sys as _sys
+                if isinstance(_sys.exc_info()[1], (HE.Flaky, getattr(HE, "FlakyStrategyDefinition", HE.Flaky))):
+                    # the SAME history behaved differently in two children (e.g. the number of live
+                    # schedules differed): no violation was recorded, so nothing is claimed here; the
+                    # structured sweeps below decide, and if they find nothing the run ends as a
+                    # harness error (exit 2), never as a pass
+                    flaky = "%s" % type(_sys.exc_info()[1]).__name__
+                    return {"stats": list(_STATS), "fail": None, "flaky": flaky}
                 raise
             fail = _LAST_FAIL[0]
     finally:
@@ -559,6 +574,90 @@ def _pair_sweep(job):
     finally:
         g.close()
     return {"pairs": len(pairs), "fails": out}
+
+
+def _abandon_sweep(job):
+    """Structured generator: a schedule is advanced k actions, then abandoned (dropped and collected);
+    the next schedule built in the same process - the same parameters, or a sibling - must not notice:
+    shared mutable class attributes, registries keyed on id(), weak references, __del__ side effects."""
+    cfgs = job
+    g = Golden()
+    out = []
+    n = 0
+    try:
+        for cfg in cfgs:
+            L = len(g.get(cfg))
+            sib = [b for _, b in siblings(cfg)][:1]
+            for k in sorted({1, 2, 3, max(1, L // 2), max(1, L - 2)}):
+                if k >= L:
+                    continue
+                for B in [cfg] + sib:
+                    ops = [["create", cfg], ["adv", 0, k], ["finish", 0], ["create", B], ["adv", 0, 1000000]]
+                    n += 1
+                    r = replay_ops(ops, g.get)
+                    if r is not None:
+                        out.append({"ops": ops, "pred": r[0], "detail": r[1], "variant": r[2]})
+                        break
+                else:
+                    continue
+                break
+    finally:
+        g.close()
+    return {"n": n, "fails": out}
+
+
+IDREUSE_CAP = 2500
+
+
+def idreuse_child(payload):
+    """(in a pristine child) m schedules are advanced k actions and dropped; then schedules with the same
+    parameters are built (and kept alive) until one of them lives at the address - has the id() - of a
+    dropped one; that one is run to its end. State attached to a schedule through its id() or its
+    memory (registries keyed on id(self), stale weak references) shows here and nowhere else."""
+    cfg, m, k = payload["cfg"], payload["m"], payload["k"]
+    runners = [StreamRunner(cfg) for _ in range(m)]
+    for r in runners:
+        for _ in range(k):
+            r.step()
+    old = set(id(r.sched) for r in runners)
+    r = None
+    del runners
+    gc.collect()
+    keep = []
+    for i in range(IDREUSE_CAP):
+        r = StreamRunner(cfg)
+        keep.append(r)
+        if id(r.sched) in old:
+            while not r.done:
+                r.step()
+            return {"hit": i, "stream": [list(t) for t in r.stream]}
+    return {"hit": None}
+
+
+def idreuse_box(tier):
+    out = [{"cls": "None", "n": 3, "passes": 0}, {"cls": "SingleMemory", "n": 3, "passes": 2}, {"cls": "SingleDisk", "move": False, "n": 3, "passes": 2},
+           {"cls": "SingleDisk", "move": True, "n": 3, "passes": 1},
+           {"cls": "Multistage", "n": 8, "ram": 1, "disk": 1, "traj": "maximum", "passes": 1}, {"cls": "Mixed", "n": 8, "s": 2, "storage": "DISK", "passes": 1},
+           {"cls": "TwoLevel", "period": 3, "b": 1, "storage": "RAM", "traj": "maximum", "n": 7, "passes": 2},
+           {"cls": "Revolve", "n": 8, "s": 2, "c8": [8, 8, 16, 16], "passes": 1}, {"cls": "DiskRevolve", "n": 8, "s": 1, "c8": [8, 8, 4, 4], "passes": 1},
+           {"cls": "PeriodicDiskRevolve", "n": 8, "s": 1, "c8": [8, 8, 16, 16], "passes": 1}, {"cls": "HRevolve", "n": 8, "s": 1, "d": 2, "c8": [8, 8, 4, 4], "passes": 1}]
+    ks = (2, 4) if tier == "quick" else (1, 2, 3, 4, 6)
+    return [(c, 16, k) for c in out for k in ks]
+
+
+def _idreuse(job):
+    from .. import forkserver
+    cfg, m, k = job
+    res = forkserver.client().call("vlib.props.c15.idreuse_child", {"cfg": cfg, "m": m, "k": k})
+    if res["hit"] is None:
+        return {"hit": None}
+    got = [tuple(t) for t in res["stream"]]
+    want = golden_once(cfg)
+    if got != want:
+        j = next((i for i in range(min(len(got), len(want))) if got[i] != want[i]), min(len(got), len(want)))
+        return {"hit": res["hit"], "fail": {"cfg": cfg, "m": m, "k": k, "variant": C.variant(cfg),
+                "detail": "%s: a schedule built at the address (id) of one of %d dropped schedules that had been advanced %d actions differs from the fresh-interpreter stream at action %d" % (C.describe(cfg), m, k, j + 1)}}
+    return {"hit": res["hit"]}
 
 
 def obs_box(tier):
@@ -706,6 +805,11 @@ def pair_box(tier):
 
 def check_witness(data, show=False):
     w = data["witness"]
+    if "idreuse" in w:
+        r = _idreuse((w["cfg"], w["idreuse"][0], w["idreuse"][1]))
+        if show:
+            print("replaying the id-reuse probe for %s (m=%d, k=%d): reached=%s" % (C.describe(w["cfg"]), w["idreuse"][0], w["idreuse"][1], r["hit"]))
+        return [((r["fail"]["variant"], "state-attached-to-object-identity"), w, r["fail"]["detail"], "env")] if r.get("fail") else []
     if "style" in w:
         r = _style_sweep([w["cfg"]])
         if show:
@@ -737,6 +841,7 @@ def run(prop, args):
     examples, steps = (80, 40) if tier == "quick" else (800, 80)
     res = R.pmap(_shard, [(tier, args.seed, k, examples, steps) for k in range(16)], chunksize=1)
     compared = 0
+    flaky_shards = []
     for part in res:
         for s in part["stats"]:
             rep.evaluations += 1
@@ -751,6 +856,8 @@ def run(prop, args):
         f = part["fail"]
         if f is not None:
             rep.add_violation((f["variant"], f["pred"]), {"ops": f["ops"]}, f["detail"], kind="history")
+        if part.get("flaky"):
+            flaky_shards.append(part["flaky"])
     # structured sibling-pair sweep (caches keyed on too little, in-place mutation of shared tables)
     pairs = pair_box(tier)
     pres = R.pmap(_pair_sweep, R.chunks(pairs, 64), chunksize=1)
@@ -768,6 +875,26 @@ def run(prop, args):
         for f in part["fails"]:
             rep.add_violation((f["variant"], f["pred"]), {"ops": f["ops"]}, f["detail"], kind="history")
     rep.evaluations += nobs
+    abox = [c for c in pair_base(tier) if c["n"] <= (4 if tier == "quick" else 9) or c["n"] >= 30]
+    nab = 0
+    for part in R.pmap(_abandon_sweep, R.chunks(abox, max(1, len(abox) // 48 + 1)), chunksize=1):
+        nab += part["n"]
+        for f in part["fails"]:
+            rep.add_violation((f["variant"], f["pred"]), {"ops": f["ops"]}, f["detail"], kind="history")
+    rep.evaluations += nab
+    ab_ex = {"box": "abandoned schedules: every small config advanced k actions (k in 1,2,3, half, all but two), dropped and collected, then the same config / a sibling built and run in the same process",
+             "cases": nab, "exhaustive": True}
+    ijobs = idreuse_box(tier)
+    reached = 0
+    for job, r in zip(ijobs, R.pmap(_idreuse, ijobs, chunksize=1)):
+        rep.evaluations += 1
+        if r["hit"] is not None:
+            reached += 1
+            rep.nontrivial.add("idreuse:" + C.key(job[0]) + ":%d" % job[2])
+        if r.get("fail"):
+            f = r["fail"]
+            rep.add_violation((f["variant"], "state-attached-to-object-identity"), {"cfg": f["cfg"], "idreuse": [f["m"], f["k"]]}, f["detail"], kind="env")
+    rep.extra["id_reuse_probes"] = {"probes": len(ijobs), "address_reused_within_cap": reached, "cap": IDREUSE_CAP}
     obs_ex = ({"box": "observer interleaving: every small offline config (n<=%d) and every online class (n in {1,2,3,5}, finalised 0-3 Forward requests late); all observers read after every action, and after exactly one action (positions 0..9)" % (5 if tier == "quick" else 6),
                            "cases": nobs, "exhaustive": True})
     # interpreter-environment sweep: same config, different string-hash seeds
@@ -790,10 +917,12 @@ def run(prop, args):
         if (A["cls"] in SHARE_A or A["cls"] in SHARE_B):
             rep.nontrivial.add("pair:" + C.key(A) + "|" + C.key(B))
     rep.exhaustive = [{"box": "every ordered pair (A, B) of configs differing in exactly one parameter, n<=%d, units<=3, three orders of use (A then B; B before A; A, B, then A again), each in a pristine child" % (6 if tier == "quick" else 9),
-                       "cases": npairs, "exhaustive": True}, obs_ex]
+                       "cases": npairs, "exhaustive": True}, obs_ex, ab_ex]
     R.run_regress(rep, check_witness)
 
     def shrink(b, w):
+        if "idreuse" in w:
+            return None
         if "style" in w:
             small = C.shrink(w["cfg"], lambda c: bool(_style_sweep([c])["fails"]))
             f = _style_sweep([small])["fails"]
@@ -816,4 +945,7 @@ def run(prop, args):
     rep.assumptions = ["golden stream = stream of the same config in a fresh interpreter that has only imported the library (forked pristine child per config)",
                        "histories bounded by stateful_step_count and 6 live objects; a dependence that needs a longer history is out of reach",
                        "every history runs in a child process forked from a pristine worker, so it is a pure function of its operation list; failing histories are minimised by delta debugging (Hypothesis shrink phase not used: one fork per example)"]
+    rep.extra["nondeterministic_history_shards"] = len(flaky_shards)
+    if flaky_shards and not rep.buckets:
+        R.harness_error("%d stateful shard(s) saw the same history behave differently in two child processes (%s) and no sweep found a violation: inconclusive" % (len(flaky_shards), flaky_shards[0]))
     return rep.finish(shrink_fn=shrink)
